@@ -23,6 +23,9 @@ def message_param(f: FuncInfo) -> str | None:
     return None
 
 
+_FRESH = (ast.List, ast.ListComp, ast.Dict, ast.DictComp, ast.Set, ast.SetComp, ast.Tuple, ast.GeneratorExp, ast.Call, ast.JoinedStr, ast.BinOp)
+
+
 class Canon(ast.NodeTransformer):
     def __init__(self, I: Interp, f: FuncInfo, msg: str | None = None, depth: int = 0, subst_params: dict | None = None) -> None:
         self.I = I
@@ -66,6 +69,8 @@ class Canon(ast.NodeTransformer):
             return node
         la = self.I.local_assigns(f).get(node.id)
         if la is not None:
+            if len(la) == 1 and isinstance(la[0], _FRESH) and node.id in self.I.mutated_locals(f):
+                return node  # a container built here and then modified in place: its display is not its value
             if len(la) == 1 and isinstance(la[0], ast.expr) and node.id not in self._active and self.depth < 12:
                 self._active.add(node.id)
                 try:
@@ -146,6 +151,10 @@ class Canon(ast.NodeTransformer):
             params = [p for p in f.positional_params if p not in ("self", "cls")]
             sub = dict(self.subst_params)
             ok = len(node.args) <= len(params) and not any(isinstance(a, ast.Starred) for a in node.args)
+            recv = node.func.value if isinstance(node.func, ast.Attribute) else None
+            if ok and f.cls is not None and not f.is_staticmethod() and f.positional_params and recv is not None and not (isinstance(recv, ast.Name) and recv.id in ("self", "cls")):
+                # method of another object (`gateway.free_ids()`): its `self` is the receiver expression
+                sub[f.positional_params[0]] = self.visit(copy.deepcopy(recv))
             if ok:
                 for p, a in zip(params, node.args):
                     sub[p] = self.visit(copy.deepcopy(a))
@@ -174,6 +183,16 @@ class Canon(ast.NodeTransformer):
             d = self.I.prog.resolve_expr(self.f.module, fn)
             if d is not None and d.kind == "func":
                 f = d.obj
+        elif isinstance(fn, ast.Attribute) and hasattr(call, "lineno"):
+            # a method of another typed object (`gateway.free_ids()`): resolved through the typed call fact
+            try:
+                fact = self.I.prog.call_fact(getattr(call, "_mod", None) or self.f.module, call)
+            except Exception:  # noqa: BLE001
+                fact = None
+            if fact and fact[0] and "|" not in fact[0] and fact[0].startswith("aiomysensors."):
+                d = self.I.prog.lookup_fullname(fact[0])
+                if d is not None and d.kind == "func" and d.obj.cls is not None and not any(d.obj.name in k.methods for k in self.I.prog.subclasses(d.obj.cls)):
+                    f = d.obj
         if f is None or isinstance(f.node, ast.AsyncFunctionDef) or f is self.f:
             return None
         body = list(f.node.body)
